@@ -1,0 +1,19 @@
+//go:build verif
+
+package grace
+
+import "sort"
+
+// VerifKeys returns the controller keys currently present in the process-wide grace table (verification hook:
+// lets a monitor check that every key belongs to exactly one rollout).
+func VerifKeys() []string {
+	r := DefaultGraceExpectations
+	r.RLock()
+	defer r.RUnlock()
+	keys := make([]string, 0, len(r.controllerCache))
+	for k := range r.controllerCache {
+		keys = append(keys, k)
+	}
+	sort.Strings(keys)
+	return keys
+}
